@@ -128,6 +128,15 @@ CHECKS["C16"] = ("DESIGN.md C16",
     "an enumeration driven by the solver; the solver's own contribution is path coverage inside "
     "each call.")
 
+CHECKS["C05"] = ("DESIGN.md C05",
+    "12 (thorough 15) template shapes of do/catch v/catch all/finally nests (depth 2, thorough 3) at "
+    "top level, in functions, in loops, nested in bodies/handlers/finally parts, with a fault point "
+    "between all statements. Symbolic: which fault point fires first and second, the exit kind of "
+    "each (error value, undefined name, division by zero, return, break, continue), error values of "
+    "several kinds, catch values, return value. The program text runs through the real parser and "
+    "interpreter; result / escaping error value and the event log are compared for all values with "
+    "a reference interpreter built on Python exceptions and try/finally.")
+
 NA = {}
 
 
